@@ -34,6 +34,17 @@ func checkC13(c *Ctx) {
 		}
 	}
 	ff := dv.transitiveFacts(fn, actionTable{})
+	// decided by complete unrolling when the burst is not written as "one send, then one counted loop of sends" (e.g. the 129
+	// messages are prepared in an array first): every returning path sends exactly Control Change(current channel, All Notes
+	// Off, 0) and Note Off(current channel, n, 0) for each n in 0..127, once each, and nothing else
+	if ok, why := panicBurstUnrolled(c, dv, fn); ok {
+		c.OK("R13.1", "device.Panic/sends-only-in-Panic", pos, why)
+		c.OK("R13.1", "device.Panic/send#1", pos, "ControlChange(current channel, AllNotesOff=123, 0) on every path, once (unrolled)")
+		c.OK("R13.1", "device.Panic/send#2", pos, "NoteOff(current channel, n, 0) for every n in [0,127], once each (unrolled)")
+		c.OK("R13.1", "device.Panic/effect-list", pos, "one AllNotesOff + 128 Note Offs on every returning path")
+		panicRest(c, dv, fn, pf, ff)
+		return
+	}
 	c.Check(len(ff.sends) == len(sites), "R13.1", "device.Panic/sends-only-in-Panic", pos,
 		fmt.Sprintf("%d send(s), all directly in Panic", len(sites)), fmt.Sprintf("Panic reaches %d MIDI sends but only %d are in its own body: a callee emits something", len(ff.sends), len(sites)))
 	var returns []*ssa.BasicBlock
@@ -117,7 +128,12 @@ func checkC13(c *Ctx) {
 		}
 	}
 	c.Check(nCC == 1 && nOff == 1, "R13.1", "device.Panic/effect-list", pos, "one AllNotesOff + one Note Off loop", fmt.Sprintf("found %d AllNotesOff and %d Note Off loops, expected 1 and 1", nCC, nOff))
-	_ = pf
+	panicRest(c, dv, fn, pf, ff)
+}
+
+// panicRest: R13.3 - R13.8.
+func panicRest(c *Ctx, dv *dev, fn *ssa.Function, pf *parserFacts, ff fnFacts) {
+	pos := c.P.Pos(fn.Pos())
 	// R13.3 device state untouched
 	allowed := map[string]bool{"externalNoteTracker": true}
 	for f, ins := range ff.writes {
@@ -834,4 +850,66 @@ func dominatesAllReturns(b *ssa.BasicBlock, fn *ssa.Function) bool {
 		}
 	}
 	return n > 0
+}
+
+// panicBurstUnrolled: see checkC13.
+func panicBurstUnrolled(c *Ctx, dv *dev, fn *ssa.Function) (bool, string) {
+	paths, err := Enumerate(fn, SymConfig{Prog: c.P, MaxDepth: 2, Collapse: true, MaxVisits: 140, MaxPaths: 64})
+	if err != nil || len(paths) == 0 {
+		return false, ""
+	}
+	allNotesOff, _ := c.P.constValue(pkgMidi, "AllNotesOff")
+	an, _ := constant.Int64Val(allNotesOff)
+	n := 0
+	for _, p := range paths {
+		if p.End == "cut" {
+			return false, ""
+		}
+		if p.End != "return" {
+			continue
+		}
+		n++
+		cc := 0
+		seen := map[int64]int{}
+		for _, e := range p.Effects {
+			if e.Kind != "send" {
+				continue
+			}
+			if !dv.isFieldLoad(e.Args[0], "outputEvents") {
+				return false, ""
+			}
+			ev := decodeEvent(e.Args[1])
+			if !ev.ok || ev.Channel == nil || !dv.isFieldLoad(ev.Channel.StripConv(), "channel") {
+				return false, ""
+			}
+			b1, ok1 := ev.B1.StripConv().IsIntConst()
+			b2, ok2 := ev.B2.StripConv().IsIntConst()
+			if !ok1 || !ok2 || b2 != 0 {
+				return false, ""
+			}
+			switch ev.Kind {
+			case midiCC:
+				if b1 != an {
+					return false, ""
+				}
+				cc++
+			case midiNoteOff:
+				seen[b1]++
+			default:
+				return false, ""
+			}
+		}
+		if cc != 1 || len(seen) != 128 {
+			return false, ""
+		}
+		for k := int64(0); k < 128; k++ {
+			if seen[k] != 1 {
+				return false, ""
+			}
+		}
+	}
+	if n == 0 {
+		return false, ""
+	}
+	return true, fmt.Sprintf("%d returning path(s), loops unrolled completely: exactly ControlChange(current channel, 123, 0) and Note Off(current channel, n, 0) for n = 0..127, once each", n)
 }
